@@ -8,9 +8,15 @@ def codec(**kw):
 LEVEL = {}
 PLAN = {
     "C01": {"steps": [codec()]},
+    "C02": {"steps": [codec(),
+                      codec(variant="asan", part="heap", tiers=["thorough"]),
+                      codec(variant="checkptr", part="heap", tiers=["thorough"])]},
     "C08": {"steps": [codec()]},
     "C10": {"steps": [codec()]},
     "C12": {"steps": [codec()]},
+    "C13": {"steps": [codec()]},
+    "C16": {"steps": [codec(part="dynamic")]},
+    "C17": {"steps": [codec()]},
 }
 for k in PLAN:
     LEVEL.setdefault(k, "exploration")
